@@ -59,6 +59,25 @@ fn server(notes: &[(String, String)], ext: &str, seq: bool) -> Server {
     })
 }
 
+/// a server that REACHED the library's texts through edits: started on other texts for the same keys
+/// (other front matter, heading, links, a list), then one didChange per note with the text of the case
+fn server_with_history(notes: &[(String, String)], ext: &str, seq: bool) -> Option<Server> {
+    let n = notes.len();
+    let was: Vec<(String, String)> = notes.iter().enumerate().map(|(i, (name, _))| {
+        let other = Key::name(&notes[(i + 1) % n].0).to_string();
+        let other = other.rsplit('/').next().unwrap_or("x").to_string();
+        let other = if !other.is_empty() && other.chars().all(|c| c.is_ascii_alphanumeric() || c == '-' || c == '_') { other } else { "x".to_string() };
+        (name.clone(), format!("---\nwas: {}\n---\n\n# was {}\n\n- old item\n- [[{}]]\n\n## gone\n\n[was]({}) text\n", i, i, other, other))
+    }).collect();
+    let mut s = catch_unwind(AssertUnwindSafe(|| server(&was, ext, seq))).ok()?;
+    let mut order: Vec<&(String, String)> = notes.iter().collect();
+    order.sort_by(|a, b| b.0.cmp(&a.0));
+    for (name, text) in order {
+        did_change(&mut s, &Key::name(name).to_string(), text).ok()?;
+    }
+    Some(s)
+}
+
 fn params(key: &str, line: usize, kind: usize) -> CodeActionParams {
     CodeActionParams {
         text_document: TextDocumentIdentifier { uri: uri_of(key) },
@@ -225,6 +244,9 @@ pub fn execute(v: &Value, kinds: &[usize]) -> String {
         _ => return gapp("AC", &[lc, gbool(seq), "[]".into(), "[]".into()]),
     };
 
+    // every second case is also asked on a server that reached the same texts through edits
+    let hist_srv = if v["hist"].as_bool().unwrap_or(false) { server_with_history(&notes, ext, seq) } else { None };
+
     let mut lines_out = vec![];
     let mut acts_out = vec![];
     let mut seen: HashSet<(u64, usize)> = HashSet::new();
@@ -260,6 +282,21 @@ pub fn execute(v: &Value, kinds: &[usize]) -> String {
                 let mut g1 = graph.clone();
                 let after = match &ch { Ok(l) => rereads(&mut g1, l, &options), Err(_) => "[]".into() };
                 let first = gstep(kind, &key, line, off, &ch, &after);
+                // the same request on the server with a history: its own edits, re-read; the offer
+                // recorded is the fresh server's (node ids differ between the two arenas)
+                let hist = match (&hist_srv, probe) {
+                    (Some(hs), false) => {
+                        let chh = match offer(hs, &key, line, kind) {
+                            Ok(Some(cah)) => resolve(hs, &cah),
+                            Ok(None) => Err("not offered by the server with a history".to_string()),
+                            Err(e) => Err(e),
+                        };
+                        let mut gh = graph.clone();
+                        let afterh = match &chh { Ok(l) => rereads(&mut gh, l, &options), Err(_) => "[]".into() };
+                        format!("(Some {})", gstep(kind, &key, line, off, &chh, &afterh))
+                    }
+                    _ => "None".to_string(),
+                };
 
                 // second step: the inverse action after the editor applied the edit
                 let inverse = match kind { 7 => Some(7), 5 => Some(6), 1 => Some(3), _ => None };
@@ -280,7 +317,7 @@ pub fn execute(v: &Value, kinds: &[usize]) -> String {
                                 if let Ok(Some(ca2)) = &off2 {
                                     let id2 = ca2.data.as_ref().and_then(|d| d.as_u64()).unwrap_or(u64::MAX);
                                     if k2 == 3 && is_self_ref(&g1, &key, id2) {
-                                        acts_out.push(gapp("AO", &[first, "None".to_string()]));
+                                        acts_out.push(gapp("AO", &[first, "None".to_string(), hist]));
                                         continue;
                                     }
                                 }
@@ -292,7 +329,7 @@ pub fn execute(v: &Value, kinds: &[usize]) -> String {
                         }
                     }
                 }
-                acts_out.push(gapp("AO", &[first, second]));
+                acts_out.push(gapp("AO", &[first, second, hist]));
             }
         }
     }
@@ -453,7 +490,7 @@ pub fn generate(rng: &mut Rng, thorough: bool, n_quick: usize) -> Vec<Value> {
         let notes = library(rng, hostile, nested);
         let ext = if rng.chance(1, 4) { ".md" } else { "" };
         let seq = rng.chance(1, 2);
-        out.push(json!({"ext": ext, "seq": seq, "kind": kind, "notes": notes.iter().map(|n| json!([n.0, n.1])).collect::<Vec<_>>()}));
+        out.push(json!({"ext": ext, "seq": seq, "kind": kind, "hist": i % 2 == 0, "notes": notes.iter().map(|n| json!([n.0, n.1])).collect::<Vec<_>>()}));
     }
     out
 }
